@@ -175,7 +175,7 @@ Theorem C09X_mstep_panic_site_unfolded : forall s o,
       act_vote_panic_site KPrecommit (ms_k s) (smm_h (m_sm (ms_m s))) (smm_r (m_sm (ms_m s))) (smm_key (m_sm (ms_m s))) t
   | MAct (ActPH p) => match hd_hash (ph_hdr p) with [] => Some site_no_action | _ :: _ => None end
   end.
-Proof. intros s o. destruct o as [[o'|k o'|]|h r| | |h r key|[t sg|t sg|p]]; reflexivity. Qed.
+Proof. exact mstep_panic_site_unfolded. Qed.
 Print Assumptions C09X_mstep_panic_site_unfolded.
 
 (** the round-entrance guard on the positions (voting height/round, committing height/round, initial
@@ -245,9 +245,7 @@ Print Assumptions C09X_closure_extends_reachable_g.
 Theorem C09X_reads_and_entrances_keep_kernel_state : forall s o s' r io,
   match o with MEnter _ _ | MEnterK _ _ _ | MSMRead | MGRead => True | MK _ | MAct _ => False end ->
   mstep s o = Ok (s', r, io) -> ms_k s' = ms_k s /\ r = 0.
-Proof.
-  intros s o s' r io H. apply quiet_keeps_kernel. destruct o; try reflexivity; contradiction.
-Qed.
+Proof. exact reads_and_entrances_keep_kernel_state. Qed.
 Print Assumptions C09X_reads_and_entrances_keep_kernel_state.
 
 (** the exact characterisation: every other operation changes the kernel state through [xstep] /
@@ -270,10 +268,7 @@ Print Assumptions C09X_kernel_state_after_mstep.
 Theorem C09X_local_action_changes_kernel_state_iff_applied : forall s h r key a s',
   act_step s h r key a = Ok s' ->
   if lact_applies s h r key a then wrote s s' /\ s' <> s else s' = s.
-Proof.
-  intros s h r key a s' H. pose proof (local_action_effect s h r key a s' H) as G.
-  destruct (lact_applies s h r key a); [split; [exact G|apply wrote_neq; exact G]|exact G].
-Qed.
+Proof. exact local_action_changes_iff_applied. Qed.
 Print Assumptions C09X_local_action_changes_kernel_state_iff_applied.
 
 (** a kernel message that returns Ok only ever appends store writes (possibly none) *)
